@@ -168,6 +168,12 @@ func c06single(w *W, y *yielder, policy string, cap, prefill int, ops string, ta
 	for _, op := range []byte(ops) {
 		switch op {
 		case 'A', 'W':
+			if len(m.blocked) > 0 {
+				// a Block-policy sender is already parked: a second one from another goroutine has no
+				// specified order relative to the first (arrival order at the channel is not observable
+				// from outside), so at most one sender is parked at a time
+				continue
+			}
 			if d, cls := do(op); d != "" {
 				return d, cls
 			}
